@@ -74,7 +74,11 @@ impl PreProcessContext {
 
         path = self.replace_placeholders(&path, workspace_str);
 
-        if path.starts_with('~') {
+        // `~` alone or `~/...` (`~\...`) refers to the home directory
+        if let Some(rest) = path
+            .strip_prefix('~')
+            .filter(|rest| rest.is_empty() || rest.starts_with(['/', '\\']))
+        {
             let home_dir = match dirs::home_dir() {
                 Some(path) => path,
                 None => {
@@ -82,7 +86,10 @@ impl PreProcessContext {
                     return path;
                 }
             };
-            path = home_dir.join(&path[2..]).to_string_lossy().to_string();
+            path = home_dir
+                .join(rest.trim_start_matches(['/', '\\']))
+                .to_string_lossy()
+                .to_string();
         } else if path.starts_with("./") {
             path = self
                 .workspace
